@@ -30,8 +30,10 @@ CALL_FIELDS = {
     "NT": (("a", "b", "c"), {"c": "3"}),
     "NT2": (("x", "y"), {"y": "0"}),
     "FDC": (("x", "y"), {"y": "None"}),
+    "DI": (("w", "h"), {"h": "2"}),
+    "AP": (("name", "token"), {"token": "'t'"}),
 }
-DEFAULT_TREES = {"5": ("int", 5), "[]": ("list", ()), "7": ("int", 7), "'x'": ("str", "x"), "3": ("int", 3), "0": ("int", 0), "None": ("none", None)}
+DEFAULT_TREES = {"2": ("int", 2), "'t'": ("str", "t"), "5": ("int", 5), "[]": ("list", ()), "7": ("int", 7), "'x'": ("str", "x"), "3": ("int", 3), "0": ("int", 0), "None": ("none", None)}
 ENUMS = ["Color.RED", "Color.GREEN", "Color.BLUE"]
 CLASSES = ["DC", "AT", "Color", "int", "str", "NT", "Weird", "list"]
 DD_FACTORIES = ["list", "int", "None", "dict"]
